@@ -271,4 +271,28 @@ theorem ivInit_range (T0 : K) (ts : List K) (hs : ts.Pairwise (· ≤ ·)) (hpos
     RangeInv T0 ts (ivInit T0 ts) :=
   ⟨by simp [ivInit], hs, hpos, by simp [ivInit]⟩
 
+/-! ### the monotone clamp of the Bezier cases (deac3eb) -/
+
+theorem monoClamp_mono (t0 : K) (ts : List K) :
+    (monoClamp (fun a b => decide (a < b)) t0 ts).Pairwise (· ≤ ·) ∧
+      ∀ t ∈ monoClamp (fun a b => decide (a < b)) t0 ts, t0 ≤ t := by
+  induction ts generalizing t0 with
+  | nil => simp [monoClamp]
+  | cons t ts ih =>
+    simp only [monoClamp]
+    by_cases h : t < t0
+    · simp only [h, decide_true, if_true]
+      obtain ⟨h1, h2⟩ := ih t0
+      exact ⟨List.pairwise_cons.mpr ⟨h2, h1⟩, fun u hu => by
+        rcases List.mem_cons.mp hu with rfl | hu
+        · exact le_refl _
+        · exact h2 u hu⟩
+    · simp only [h, decide_false, Bool.false_eq_true, if_false]
+      obtain ⟨h1, h2⟩ := ih t
+      have htt : t0 ≤ t := le_of_not_gt h
+      exact ⟨List.pairwise_cons.mpr ⟨h2, h1⟩, fun u hu => by
+        rcases List.mem_cons.mp hu with rfl | hu
+        · exact htt
+        · exact le_trans htt (h2 u hu)⟩
+
 end C09L
